@@ -77,6 +77,7 @@ type kvRun struct {
 	seen      map[string]bool   // every real version string observed so far
 	expOf     map[int]time.Time // model version -> expiration instant written
 	stalled   bool
+	expStamp  time.Time // Redis: when the expiration of the write under way was computed
 	pastCount int
 	wrotePast bool // a record with an expiration in the past was just written
 }
@@ -142,8 +143,12 @@ func (r *kvRun) expTime(class string) *time.Time {
 	}
 	var t time.Time
 	if r.redis {
-		// miniredis time is virtual: the client turns ExpiresAt into a TTL relative to the real clock
+		// miniredis time is virtual: the client turns ExpiresAt into a TTL relative to the real clock - the real time
+		// that passes between here and the client's own look at the clock shortens the TTL (see checkWindow)
 		t = time.Now().Add(time.Duration(d) * r.tick)
+		if r.expStamp.IsZero() {
+			r.expStamp = time.Now()
+		}
 	} else {
 		t = r.start.Add(time.Duration(r.now+d) * r.tick)
 	}
@@ -400,6 +405,14 @@ func (r *kvRun) step(i int, s Step) *Failure {
 func (r *kvRun) checkWindow() {
 	if !r.redis && time.Since(r.start) > time.Duration(r.now+1)*r.tick-r.tick/4 {
 		r.stalled = true
+	}
+	if r.redis && !r.expStamp.IsZero() {
+		// Redis, virtual clock: a write with an expiration took so long in REAL time (host stall between the harness's
+		// and the client's look at the clock) that the TTL the server got may be a tick short: not judged
+		if time.Since(r.expStamp) > r.tick/4 {
+			r.stalled = true
+		}
+		r.expStamp = time.Time{}
 	}
 }
 
